@@ -210,7 +210,7 @@ func specMaxVersion(spec *tls.ClientHelloSpec) uint16 {
 func TestC03(t *testing.T) {
 	r := mon.New("C03", "every predefined ClientHelloID x N connections x SNI values (fresh connections; plus resumed connections over a shared session cache for ticket/PSK parrots): wire hello compared with an independent reference encoding of UTLSIdToSpec(id) (exported fields only), wildcards only for per-connection material; shuffling Chrome IDs compared as multiset with GREASE/padding/PSK at spec indices. distinct = (parrot, extension order) pairs")
 	defer r.Finish(t)
-	conns := mon.Pick(13*9+4, 3000)
+	conns := mon.Pick(13*9+4, 20000)
 	snis := append([]string{"example.test", "a.test", longName(120), "192.0.2.9"}, boundaryNames()...)
 	for _, p := range AllParrots {
 		orders := map[string]bool{}
